@@ -509,7 +509,7 @@ func cleanupFilePos(tfile *token.File, cl engine.Changelog, comments []*ast.Comm
 			continue
 		}
 
-		for i := tfile.Line(dr.Start); i < tfile.Line(dr.End); i++ {
+		for i := physicalLine(tfile, dr.Start); i < physicalLine(tfile, dr.End); i++ {
 			if i > 0 {
 				linesToDelete[i] = struct{}{}
 			}
@@ -536,4 +536,10 @@ func cleanupFilePos(tfile *token.File, cl engine.Changelog, comments []*ast.Comm
 	for i := len(lines) - 1; i >= 0; i-- {
 		tfile.MergeLine(lines[i])
 	}
+}
+
+// physicalLine returns the line of pos in the file as it is on disk,
+// ignoring //line directives. token.File.MergeLine counts those lines.
+func physicalLine(tfile *token.File, pos token.Pos) int {
+	return tfile.PositionFor(pos, false).Line
 }
